@@ -45,7 +45,7 @@ func checkDefs() map[string]*CheckDef {
 				return rs
 			},
 			LevelText: "Bounded symbolic model checking of the real SortOrderedComponents/orderedComponentComparator and the real stdlib sort.Slice SSA: for every multiset of up to N participants of the three classes with unconstrained 64-bit Order() values and every input order, z3 shows the output is a permutation, classes are grouped priority<ordered<plain and Order never decreases inside the first two groups.",
-			LevelNote: "Bound: N=5 participants over six classes (priority-ordered, ordered, unordered, marker-only, value and pointer of a type whose Order() has a pointer receiver), thorough additionally N=6 over the first four; the sorter is stdlib sort.SliceStable executed from SSA (insertion sort blocks + symMerge); 13/16/30 participants with concrete Orders in the run many-participants. Trusted: go/ssa, the engine's SSA semantics (validated by native replay of sampled paths), z3.",
+			LevelNote: "The call-site run also sequences the early-reference and population callbacks (every harness processor is instantiation-aware and smart, the target refers to itself) and the callbacks seen by a component that is created while the chain is being activated (an eager processor's own dependency). Bound: N=5 participants over six classes (priority-ordered, ordered, unordered, marker-only, value and pointer of a type whose Order() has a pointer receiver), thorough additionally N=6 over the first four; the sorter is stdlib sort.SliceStable executed from SSA (insertion sort blocks + symMerge); 13/16/30 participants with concrete Orders in the run many-participants. Trusted: go/ssa, the engine's SSA semantics (validated by native replay of sampled paths), z3.",
 			Technique: "bounded symbolic execution of go/ssa + z3 (QF_BV), native replay of counterexamples",
 			DesignRef: "DESIGN.md §3 C12",
 		},
@@ -61,7 +61,7 @@ func checkDefs() map[string]*CheckDef {
 				}
 			},
 			LevelText: "Bounded symbolic model checking of TagArg.Parse/Set/Has/Find, NewProperty, IsRequired and the real strings2.Split/Index SSA over every byte string of length <= N: no path panics (every implicit bounds check is a solver obligation).",
-			LevelNote: "Bound: all byte strings up to N bytes (quick 5, thorough 6) for totality; structured tags up to 12 bytes for faithfulness. strings.Index/Count/ToUpper are Go-source models validated against the real functions.",
+			LevelNote: "A name written in two argument segments yields the items of one segment; the prop shorthand with an empty key keeps its arguments. Bound: all byte strings up to N bytes (quick 5, thorough 6) for totality; structured tags up to 12 bytes for faithfulness. strings.Index/Count/ToUpper are Go-source models validated against the real functions.",
 			Technique: "bounded symbolic execution of go/ssa + z3 (QF_BV), native replay of counterexamples",
 			DesignRef: "DESIGN.md §3 C19",
 		},
@@ -93,7 +93,7 @@ func checkDefs() map[string]*CheckDef {
 				return r
 			},
 			LevelText: "Bounded symbolic model checking of the real defaultFactory.Refresh/doGetComponent/createComponent/doCreateComponent/populateComponent/getEarlyBeanReference, the real three-level singleton registry, Property.Inject and CreateProxy on every dependency graph over n harness components (edges chosen when the holder is populated; self-edges, cycles, slices): after a successful start every field and slice element that resolved to a component is identical (interface identity) to what GetComponentByName returns, also when one component is wrapped by a post-processor.",
-			LevelNote: "Bounds: n<=2 with two single points and a slice point, n<=3 with one single point (thorough: n=3 with single+slice); graph edges are enumerated by forking, not symbolic; resolution of the edges (by type/name/qualifier) is checked separately (C06-C08). Trusted: go/ssa, engine semantics incl. the reflect model (validated by native replay of sampled paths), z3.",
+			LevelNote: "After every successful start each self-naming component is also looked up under its type id: nothing is found, in particular no second version is created. Bounds: n<=2 with two single points and a slice point, n<=3 with one single point (thorough: n=3 with single+slice); graph edges are enumerated by forking, not symbolic; resolution of the edges (by type/name/qualifier) is checked separately (C06-C08). Trusted: go/ssa, engine semantics incl. the reflect model (validated by native replay of sampled paths), z3.",
 			Technique: techDefault, DesignRef: "DESIGN.md §3 C01"},
 		&CheckDef{ID: "C02", Title: "Cycles resolve, start-up terminates",
 			Runs: func(tier string) []RunSpec {
@@ -113,7 +113,7 @@ func checkDefs() map[string]*CheckDef {
 				return r
 			},
 			LevelText: "Bounded symbolic model checking of the real factory/registry/Inject code on every directed graph over n components with required/optional bits per point: every path ends within the step budget (unwinding assertion = termination), start-up succeeds unless a required point can only be satisfied by its own holder, no field is ever wired to its holder, every required point holds its target.",
-			LevelNote: "Bounds: n<=2 (single+slice), n<=3 (single point); step budget 400k SSA instructions per path (max seen ~15k). One fixed long cycle (a ring of 70 components, one path) is run as well; arbitrary graphs with hundreds of nodes are outside the claim.",
+			LevelNote: "Run components-sharing-an-address-on-a-cycle: two components of different types at one address (first field) refer to each other. Bounds: n<=2 (single+slice), n<=3 (single point); step budget 400k SSA instructions per path (max seen ~15k). One fixed long cycle (a ring of 70 components, one path) is run as well; arbitrary graphs with hundreds of nodes are outside the claim.",
 			Technique: techDefault, DesignRef: "DESIGN.md §3 C02"},
 		&CheckDef{ID: "C03", Title: "No stale version under substitution",
 			Runs: func(tier string) []RunSpec {
@@ -164,7 +164,7 @@ func checkDefs() map[string]*CheckDef {
 				return r
 			},
 			LevelText: "Bounded symbolic model checking of the real Refresh/InitializeComponent/invokeInitMethods/applyPostProcess* with a ghost event log: per component config < before-init < AfterPropertiesSet < Init < after-init, each exactly once; injection points populated before the before-init callback; a dependency that does not depend back is fully initialised before its dependant's Init; lazy components initialised iff an eager one needs them.",
-			LevelNote: "Bounds: n<=2 (all points) and n<=3 (single point), lazy/eager mix; thorough n=3 single+slice. User post-processors returning nil and wrapping are outside.",
+			LevelNote: "Run lifecycle-complete-after-a-repeated-attempt: the C04 retry histories (a lookup never hands out an instance whose last attempt did not run to the end). Bounds: n<=2 (all points) and n<=3 (single point), lazy/eager mix; thorough n=3 single+slice. User post-processors returning nil and wrapping are outside.",
 			Technique: techDefault, DesignRef: "DESIGN.md §3 C05"},
 	)
 	app := ioc + "/app"
@@ -192,7 +192,7 @@ func checkDefs() map[string]*CheckDef {
 				}
 			},
 			LevelText: "Bounded symbolic model checking of the real App.Close with engine goroutines, WaitGroup and channel models under the adversarial-join schedule (spawned goroutines run only when the parent blocks or returns, in every order; the parent resumes as early as possible): at the instant Close returns every closer ran exactly once and returned, for 0..N closers and every subset that fails.",
-			LevelNote: "Bound N closers (quick 5, thorough 6) under every join schedule, plus 16/17/18/33 closers under one fixed sequential schedule (batch and pool boundaries). Preemption inside a closer body is not explored (closer bodies share nothing but the WaitGroup). select and timers are modelled (a timer may fire at any moment; closers are marked as arbitrarily slow). Honest note: the quantified variables here (closer count, failing subset, schedule) are all explored by forking; the solver only decides feasibility of the few data-dependent branches.",
+			LevelNote: "The many-closers run includes 40 closers of which every second one fails. Bound N closers (quick 5, thorough 6) under every join schedule, plus 16/17/18/33 closers under one fixed sequential schedule (batch and pool boundaries). Preemption inside a closer body is not explored (closer bodies share nothing but the WaitGroup). select and timers are modelled (a timer may fire at any moment; closers are marked as arbitrarily slow). Honest note: the quantified variables here (closer count, failing subset, schedule) are all explored by forking; the solver only decides feasibility of the few data-dependent branches.",
 			Technique: techDefault + "; goroutine schedules as symbolic choices", DesignRef: "DESIGN.md §3 C14"},
 		&CheckDef{ID: "C15", Title: "Configuration sources",
 			Runs: func(tier string) []RunSpec {
@@ -205,7 +205,7 @@ func checkDefs() map[string]*CheckDef {
 				}
 			},
 			LevelText: "Bounded symbolic model checking of the real app.SetConfig/AddConfigLoader/SetConfigLoader options and configure.AddLoaders/SetLoaders/Initialize/loadConfigure with a recording binder: for every sequence of up to K options and every set of up to N loaders (three classes, unconstrained Order, empty or non-empty payload, one failing): every document of every source that was added reaches the binder exactly once, priority-ordered (file) loaders first, unordered ones in the order added; a failing loader fails Initialize; and, with the real viper behind the real ViperBinder, the effective configuration of up to N overlapping YAML documents is their deep merge in loader order (last wins, nothing lost, nothing else contributes).",
-			LevelNote: "Two layers. (1) Symbolic: 'the right documents reach the binder in the right order, none dropped' with a recording binder, unconstrained Order values and document bytes. (2) The run merge-real-viper drives the real configure.Initialize, loader.RawLoader and binder.ViperBinder from SSA with the REAL spf13/viper and YAML decoder linked into the engine and used natively on the concrete documents of each path: N (2, thorough 3) YAML documents assembled from symbolic choices of which overlapping top-level / nested / two-levels-down keys each supplies; asserted are last-wins, survival of singly supplied keys, absence of unsupplied keys (a process environment variable named like a key contributes nothing), the flattened Get(\"\") and Get after a runtime Set. The run conflicting-shapes feeds viper documents whose shapes conflict (map then scalar, flat dotted key then nested key): both are listed findings decided by the dependency. viper's behaviour on other document shapes (lists, anchors, type coercion), The real loader.ArgsLoader (go-kid/properties from SSA, yaml.Marshal natively) renders two --app.config arguments that take part in the merge. File I/O (os.ReadFile is a stub) stays outside.",
+			LevelNote: "The load run includes two configurations built from one base list (aliasing of the caller's slice); the merge run a source added after the command-line loader. Two layers. (1) Symbolic: 'the right documents reach the binder in the right order, none dropped' with a recording binder, unconstrained Order values and document bytes. (2) The run merge-real-viper drives the real configure.Initialize, loader.RawLoader and binder.ViperBinder from SSA with the REAL spf13/viper and YAML decoder linked into the engine and used natively on the concrete documents of each path: N (2, thorough 3) YAML documents assembled from symbolic choices of which overlapping top-level / nested / two-levels-down keys each supplies; asserted are last-wins, survival of singly supplied keys, absence of unsupplied keys (a process environment variable named like a key contributes nothing), the flattened Get(\"\") and Get after a runtime Set. The run conflicting-shapes feeds viper documents whose shapes conflict (map then scalar, flat dotted key then nested key): both are listed findings decided by the dependency. viper's behaviour on other document shapes (lists, anchors, type coercion), The real loader.ArgsLoader (go-kid/properties from SSA, yaml.Marshal natively) renders two --app.config arguments that take part in the merge. File I/O (os.ReadFile is a stub) stays outside.",
 			Technique: techDefault, DesignRef: "DESIGN.md §3 C15"},
 		&CheckDef{ID: "C16", Title: "Placeholders",
 			Runs: func(tier string) []RunSpec {
@@ -225,7 +225,7 @@ func checkDefs() map[string]*CheckDef {
 				return rs
 			},
 			LevelText: "Bounded symbolic model checking of the real configQuoteAwarePostProcessors.PostProcessProperties, el.ReplaceAllContent/MatchString and strconv2.ParseAny/FormatAny: structured tags pre ${a} mid ${b[:d]} post with symbolic literal text, values and defaults (present / absent / empty map / empty list), a placeholder nested in a key, every byte string of length <= N as tag text, and configured values that refer to themselves or to each other (termination as an unwinding assertion).",
-			LevelNote: "Bounds: literal parts <=1 byte, values <=2 (3) bytes, defaults of letters and blanks <=2 bytes (number-like, boolean-like, quoted and bracketed defaults are re-formatted by ParseAny/FormatAny, see C17), arbitrary tags <=5 bytes over all byte values (thorough: additionally <=6 ASCII bytes; the case-folding model is byte-wise, so longer non-ASCII defaults are outside) with plain configured values. regexp is a Go-source model of the two placeholder patterns validated against the real regexp; non-string configured scalars and JSON-shaped values are outside.",
+			LevelNote: "Also: values and tags built from the placeholder fragments '${y', '}', 'y' (4 pieces each; thorough 5) - complete placeholders arise only by splicing, resolution must end with a value or an error; the same key quoted twice in one tag with different defaults. Bounds: literal parts <=1 byte, values <=2 (3) bytes, defaults of letters and blanks <=2 bytes (number-like, boolean-like, quoted and bracketed defaults are re-formatted by ParseAny/FormatAny, see C17), arbitrary tags <=5 bytes over all byte values (thorough: additionally <=6 ASCII bytes; the case-folding model is byte-wise, so longer non-ASCII defaults are outside) with plain configured values. regexp is a Go-source model of the two placeholder patterns validated against the real regexp; non-string configured scalars and JSON-shaped values are outside.",
 			Technique: techDefault, DesignRef: "DESIGN.md §3 C16"},
 	)
 	rhc := func(name, entry string, p map[string]int, cover ...string) RunSpec {
@@ -248,7 +248,7 @@ func checkDefs() map[string]*CheckDef {
 				}
 			},
 			LevelText: "Bounded symbolic model checking of the real dependencyAware/dependencyFunctionAware/dependencyFurtherMatching processors (sequenced by the real SortOrderedComponents), container.Type/InterfaceType/FuncName, defaultDefinitionRegistry.GetMetas (enumeration order = symbolic permutation), the real tag scanner and populateComponent/Inject: for every population of up to K providers over a universe of four provider types and eight consumer field kinds (*T, I, []*T, []I, any, func-tag slice, and holders that are themselves candidates), the injected set equals an order-free specification written from static facts about the types.",
-			LevelNote: "Reduced claim: types are program text, so the type universe is fixed (4 provider types incl. a 'merely similar' pointer type, 8 field kinds); K<=2 (thorough 3); func tag with returns= for string results only. The reflect model is validated by native replay of sampled paths.",
+			LevelNote: "The func-returns run has a wildcard (returns=*) point, a component without the methods and a component whose methods of the requested names take parameters. Reduced claim: types are program text, so the type universe is fixed (4 provider types incl. a 'merely similar' pointer type, 8 field kinds); K<=2 (thorough 3); func tag with returns= for string results only. The reflect model is validated by native replay of sampled paths.",
 			Technique: techDefault, DesignRef: "DESIGN.md §3 C06"},
 		&CheckDef{ID: "C07", Title: "Injection by name",
 			Runs: func(tier string) []RunSpec {
@@ -279,7 +279,7 @@ func checkDefs() map[string]*CheckDef {
 				}
 			},
 			LevelText: "Bounded symbolic model checking of the real furtherMatching processor (filterDependencies), TagArg.Has/Find and the by-type processors on holders with 2-3 wire fields (single, slice, an optional field without any candidate placed first): qualifiers of candidates and requested qualifier sets are symbolic bytes, primary/unnamed/named attributes and required bits are explored; each field is checked against an order-free per-field specification (only qualifying candidates, unique Primary wins, else unique unnamed, ties only inside the top rank).",
-			LevelNote: "Bounds: 2 candidates over {*vPA, *vPC, *vPP}, four holder shapes, requested set <=1 (2) one-byte qualifiers. Qualifier arguments are set through Property.SetArg (the tag grammar itself is C19).",
+			LevelNote: "Run mixed-property-kinds: the holder also carries a configuration property, under permuted enumeration of the property groups. Bounds: 2 candidates over {*vPA, *vPC, *vPP}, four holder shapes, requested set <=1 (2) one-byte qualifiers. Qualifier arguments are set through Property.SetArg (the tag grammar itself is C19).",
 			Technique: techDefault, DesignRef: "DESIGN.md §3 C08"},
 		&CheckDef{ID: "C09", Title: "Clean failures",
 			Runs: func(tier string) []RunSpec {
@@ -302,7 +302,7 @@ func checkDefs() map[string]*CheckDef {
 				}
 			},
 			LevelText: "Bounded symbolic model checking of three harness groups, faults injected one at a time and in pairs as solver-chosen bits: (1) every AfterPropertiesSet/Init/post-processor callback of the real factory fails on demand -> Refresh returns an error, never panics, ends within the step budget; (2) required vs optional wire points with present/absent candidates through the real resolution processors -> error iff a required point is unsatisfied, optional points stay at their zero value, no panic escapes; (3) the real App.run with failing configuration/prepare/refresh phases, loaders and runners -> run returns an error and no runner is invoked.",
-			LevelNote: "The composition into a statement about App.Run (options; initiate; run) is an informal assume-guarantee argument (DESIGN.md §3 C09), not machine-checked. ",
+			LevelNote: "Run optional-validated-struct-pointer: an optional validated struct pointer to which nothing is bound never fails start-up. The composition into a statement about App.Run (options; initiate; run) is an informal assume-guarantee argument (DESIGN.md §3 C09), not machine-checked. ",
 			Technique: techDefault + "; fault bits as symbolic variables", DesignRef: "DESIGN.md §3 C09"},
 		&CheckDef{ID: "C10", Title: "Order independence",
 			Runs: func(tier string) []RunSpec {
@@ -318,7 +318,7 @@ func checkDefs() map[string]*CheckDef {
 				}
 			},
 			LevelText: "Bounded symbolic model checking with the iteration order of sync.Map.Range and Go map range as symbolic permutations (fresh per call), the registration order of components and of the post-processors permuted: every outcome is compared with the order-free specifications of C06-C08 (success/failure, and the winner whenever the candidates are not genuinely tied; ties only inside the top-ranked set); a cyclic graph with a wrapped component is started twice in one path (canonical order vs permuted) and success and wiring must agree.",
-			LevelNote: "Bounds as C06-C08 (<=3 registry entries, i.e. 3! orders per enumeration) and n<=2 (3) for creation order. Ties between post-processors of equal Order (sort.Slice is not stable) commute by reading (disjoint tags), not by the solver. Goroutine schedules of the scanning phase only influence insertion order, which is arbitrary here; data races are C20.",
+			LevelNote: "Run mixed-property-kinds: the holder also carries a configuration property, under permuted enumeration of the property groups. Bounds as C06-C08 (<=3 registry entries, i.e. 3! orders per enumeration) and n<=2 (3) for creation order. Ties between post-processors of equal Order (sort.Slice is not stable) commute by reading (disjoint tags), not by the solver. Goroutine schedules of the scanning phase only influence insertion order, which is arbitrary here; data races are C20.",
 			Technique: techDefault + "; iteration orders as symbolic permutations; two-run relational check", DesignRef: "DESIGN.md §3 C10"},
 	)
 	defs = append(defs,
@@ -350,7 +350,7 @@ func checkDefs() map[string]*CheckDef {
 				}
 			},
 			LevelText: "Bounded symbolic model checking of the glue in go-kid/ioc's own code: (a) the nine real processor objects plus extra user processors of symbolic class and 64-bit Order are sorted by the real SortOrderedComponents and configQuote < expression < {value, properties} < validate always holds; (b) real configQuote then expression then value processors on pre #{e1 ${k} e2} post: the text compiled is exactly the substituted text and the field receives pre+result+post; (c) the real validate processor fails exactly when the validator rejects the bound value, for fields with and without a validate argument, required and optional; (c') a bound struct (by value and through a pointer; required scalar, required nested struct, omitempty+min) fails start-up exactly when the real validator with the documented options rejects it.",
-			LevelNote: "Reduced claim: what expr-lang computes and which values go-playground/validator rejects are outside. On SYMBOLIC operands expr.Compile/Run is an uninterpreted injective function of the text and the validator's verdict an uninterpreted function of (value, constraint), except required/min/max/omitempty on ASCII strings, which are modelled; on CONCRETE operands the engine calls the real expr-lang and the real validator natively (they are linked into the engine), so the concrete expression family and concrete values are decided by the libraries themselves (concrete structs are rebuilt with reflect.StructOf carrying the declared validate tags, and the validator handle carries the options the code under test constructed it with). Natively the same harness uses the real libraries on both sides (sampled paths are replayed).",
+			LevelNote: "Run empty-expression-result: an expression whose whole result is the empty string (concrete operands, real expr-lang). Reduced claim: what expr-lang computes and which values go-playground/validator rejects are outside. On SYMBOLIC operands expr.Compile/Run is an uninterpreted injective function of the text and the validator's verdict an uninterpreted function of (value, constraint), except required/min/max/omitempty on ASCII strings, which are modelled; on CONCRETE operands the engine calls the real expr-lang and the real validator natively (they are linked into the engine), so the concrete expression family and concrete values are decided by the libraries themselves (concrete structs are rebuilt with reflect.StructOf carrying the declared validate tags, and the validator handle carries the options the code under test constructed it with). Natively the same harness uses the real libraries on both sides (sampled paths are replayed).",
 			Technique: techDefault + "; third-party interpreters as uninterpreted functions", DesignRef: "DESIGN.md §3 C18"},
 	)
 	defs = append(defs,
@@ -361,7 +361,7 @@ func checkDefs() map[string]*CheckDef {
 					{Name: "nil-config-pointer", Pkg: prc, Entry: "VerifC11NilConfigPointer", MustCover: []string{"nil configuration-properties pointers"}}}
 			},
 			LevelText: "Bounded symbolic model checking of NewMeta/scanFields/ForEachFieldV2, the real tag-scan processors (wire, func, value+prop, prefix, logger) plus a custom-tag processor, and the real populate path, on a fixed family of struct shapes (flat; the same tagged block embedded by value at depth 1, 2, 3; embedded struct with an unexported type name, also in the middle of the chain; embedded struct that itself carries a tag; embedded pointer-to-struct) with SYMBOLIC initial contents of every field and symbolic configured values: per shape the property list and every bound value equal those of the flat twin, the custom processor receives exactly its field with value and arguments, and unexported / untagged / foreign-tagged / unexported-but-tagged fields are bit-identical afterwards.",
-			LevelNote: "Reduced claim: struct types are program text, not solver data - the quantification over 'all struct shapes' is NOT addressed, only the 8 shapes listed. The reflect model's CanSet/embedding rules are validated by native replay of the sampled paths on exactly these shapes.",
+			LevelNote: "Shape 12: an embedded by-value struct whose type declares Prefix(); every tagged block also has a field carrying both value and prop tags (one property per processor, the explicit value tag decides). Reduced claim: struct types are program text, not solver data - the quantification over 'all struct shapes' is NOT addressed, only the 8 shapes listed. The reflect model's CanSet/embedding rules are validated by native replay of the sampled paths on exactly these shapes.",
 			Technique: techDefault, DesignRef: "DESIGN.md §3 C11"},
 		&CheckDef{ID: "C20", Title: "Races and atomicity",
 			Runs: func(tier string) []RunSpec {
@@ -377,7 +377,7 @@ func checkDefs() map[string]*CheckDef {
 				}
 			},
 			LevelText: "Bounded symbolic model checking with engine goroutines: (a) sync2.Map.{Load,Store,LoadOrStore,LoadOrStoreFn,Delete} and ConcurrentSets.{Put,Exists,Remove} from two goroutines under every interleaving of their visible operations (bounded context switches): two load-or-stores never both win, every history is linearizable (checker written in the harness), and a Range running concurrently with a Delete/Store/LoadOrStore/LoadOrStoreFn hands out only mappings some caller stored, visits no key twice and misses no untouched key; (b) the real applyDefinitionRegistryPostProcessors (real tag scanner + scanners failing on solver-chosen components) and App.Close under the adversarial-join schedule with a happens-before race detector (vector clocks over spawn, WaitGroup, Mutex, sync.Map entries, atomics, channels): no two unordered conflicting accesses to one heap cell.",
-			LevelNote: "Bounds: 2 goroutines x 1 (2) operations over 2 (1) keys, <=2-4 preemptive context switches; <=3 (5) scanned components, at most 8 live goroutines. sync.Map, sync.Mutex, sync.WaitGroup and sync/atomic are trusted models (each method one atomic step); memory model = sequential consistency + happens-before bookkeeping; preemption inside user callbacks, the stdlib log.Logger (one atomic step), viper is outside; go-kid/ioc's own syslog package IS executed from SSA in the two race runs (its per-prefix logger instances are shared by the goroutines). Counterexamples are replayed natively (go test -race / a barrier inside the LoadOrStoreFn callback). Honest note: operations, keys and schedules are explored by forking (explicit-state exploration inside the symbolic executor); the SMT solver has almost nothing to decide in these runs.",
+			LevelNote: "The scanners of the race run file properties like user scanners and the caller reads the definitions after the phase returned (ranging over a map is a read for the detector); the set run also compares Length/ToArray with membership after the goroutines are done (a violating interleaving found there cannot be forced natively: such a result is reported INCONCLUSIVE, not as a violation). Bounds: 2 goroutines x 1 (2) operations over 2 (1) keys, <=2-4 preemptive context switches; <=3 (5) scanned components, at most 8 live goroutines. sync.Map, sync.Mutex, sync.WaitGroup and sync/atomic are trusted models (each method one atomic step); memory model = sequential consistency + happens-before bookkeeping; preemption inside user callbacks, the stdlib log.Logger (one atomic step), viper is outside; go-kid/ioc's own syslog package IS executed from SSA in the two race runs (its per-prefix logger instances are shared by the goroutines). Counterexamples are replayed natively (go test -race / a barrier inside the LoadOrStoreFn callback). Honest note: operations, keys and schedules are explored by forking (explicit-state exploration inside the symbolic executor); the SMT solver has almost nothing to decide in these runs.",
 			Technique: techDefault + "; goroutine schedules as symbolic choices; happens-before race detection in the executor", DesignRef: "DESIGN.md §3 C20"},
 	)
 	// the integration graph run (real App.initiate + run) is cheap and serves several properties
